@@ -107,6 +107,11 @@ def check_transform(tr, M, site):
         nz = math.sqrt(float(z[:3].dot(z[:3])))
         if not (nz > 1e-6 and abs(z[3]) <= 1e-5 and close(z[:3] / nz, d, 1e-4)):
             return ('lookat-minus-z', 'M.(0,0,-1,0) = %r, unit(interest - eye) = %r' % (z.tolist(), d.tolist()))
+        # the camera frame is right-handed (a rotation of the reference frame, not a reflection)
+        det = float(numpy.linalg.det(M[:3, :3]))
+        if not det > 0:
+            return ('lookat-handedness', 'the linear part of the lookat matrix has determinant %r (left-handed frame): %r'
+                    % (det, M.tolist()))
         return None
     R = ref_matrix(tr)
     mag = float(numpy.max(numpy.abs(R)))
